@@ -818,7 +818,8 @@ class _SGDP4Base:
     def _calculate_xlcof(self):
         # Check for possible divide-by-zero for X/(1+cos(xincl)) when
         # calculating xlcof */
-        temp0 = 1.0 + self.cosIO
+        # 1 + cos(xincl), written without the cancellation that loses all digits near 180 deg
+        temp0 = 2.0 * np.cos(0.5 * self.xincl)**2
         if np.abs(temp0) < EPS_COS:
             temp0 = np.sign(temp0) * EPS_COS
         return 0.125 * A3OVK2 * self.sinIO * (3.0 + 5.0 * self.cosIO) / temp0
